@@ -36,9 +36,20 @@ pub struct Obs {
 }
 
 fn build(seed: u64, seq: &[Item]) -> (World, Vec<u8>, usize) {
-    let mut w = World::boot(WorldCfg { seed, ..Default::default() });
+    let w = World::boot(WorldCfg { seed, ..Default::default() });
+    build_on(w, seq)
+}
+
+fn build_on(mut w: World, seq: &[Item]) -> (World, Vec<u8>, usize) {
     let a = w.start(0, Kind::Sub);
     w.settle_check();
+    if w.m[a].pkt_id.is_none() {
+        // the client is not serving (only possible after an earlier connection): nothing can be delivered
+        let r = w.sim.run_result();
+        w.viol(&["C03"], "C03/client-not-serving-on-new-connection".into(), format!("the SUBSCRIBE was not written on the new connection; run() = {:?}", r));
+        w.blind = true;
+        return (w, Vec::new(), 0);
+    }
     w.deliver_ack(a, 1, 0, 0);
     w.settle_check();
     w.take_stream(a);
@@ -150,7 +161,55 @@ fn observe(w: &World, base: usize) -> Obs {
 
 /// Runs one (sequence, plan) case; returns number of violations reported.
 fn case(rep: &mut Rep, id: &str, seq: &[Item], plan: &Plan, reference: &Obs) -> usize {
-    let (mut w, bytes, base) = build(rep.seed, seq);
+    let (w, bytes, base) = build(rep.seed, seq);
+    case_on(rep, id, seq, plan, reference, w, bytes, base)
+}
+
+/// The same Context served an earlier connection that ended (end-of-stream) after `cut` bytes of `prior`, i.e. possibly
+/// in the middle of a packet; the bytes of the new connection must be framed as on a fresh client.
+fn case_after_previous_connection(rep: &mut Rep, id: &str, seq: &[Item], plan: &Plan, reference: &Obs, prior_sizes: &[usize], cut: usize, one_read: bool) -> usize {
+    let mut w = World::boot(WorldCfg { seed: rep.seed, ..Default::default() });
+    w.sim.capture = Some(Vec::new());
+    for (j, sz) in prior_sizes.iter().enumerate() {
+        // QoS 0 without a subscription identifier: nothing observable is owed for it
+        w.in_publish_sized(0, 0, false, &[], *sz + j);
+    }
+    let prior = w.sim.capture.take().unwrap();
+    let cut = cut.min(prior.len());
+    if one_read {
+        w.sim.feed(&prior[..cut]);
+    } else {
+        for b in &prior[..cut] {
+            w.sim.feed(&[*b]);
+            w.sim.settle();
+        }
+    }
+    w.settle_check();
+    w.eof();
+    w.settle_check();
+    if w.sim.run_result().is_none() {
+        w.viol(&["C03"], "C03/previous-connection-did-not-end".into(), "run() still pending after end-of-stream".into());
+        return harvest(rep, &mut w, id);
+    }
+    w.resume_full(ResumeOpts { plain: true, ..Default::default() });
+    if w.blind {
+        for v in w.viols.iter_mut() {
+            if !v.props.contains(&"*") {
+                v.props = &["C03"];
+                v.sig = format!("C03/second-connection/{}", v.sig);
+            }
+        }
+        rep.add("evaluations", 1);
+        return harvest(rep, &mut w, id);
+    }
+    rep.add("second_connection_cases", 1);
+    // inbound messages are numbered per World; restart the numbering so that topics and payloads equal the reference's
+    w.inbound_seq = 0;
+    let (w, bytes, base) = build_on(w, seq);
+    case_on(rep, id, seq, plan, reference, w, bytes, base)
+}
+
+fn case_on(rep: &mut Rep, id: &str, seq: &[Item], plan: &Plan, reference: &Obs, mut w: World, bytes: Vec<u8>, base: usize) -> usize {
     let stall = deliver(&mut w, &bytes, plan);
     let mut n = 0;
     if let Some(s) = stall {
@@ -421,6 +480,26 @@ pub fn run(rep: &mut Rep) {
                 let r = reference(rep, &seq);
                 case(rep, &id, &seq, &Plan::Caps(vec![]), &r);
                 rep.add("four_byte_remaining_length_cases", 1);
+            }
+        }
+    }
+    // ---- the same Context after an earlier connection that ended inside a packet (or with whole packets unread behind the cut)
+    {
+        let seq = vec![Item::PingResp, Item::Pub(1, 30), Item::Pub(0, 600), Item::PingResp];
+        let r = reference(rep, &seq);
+        let prior = [20usize, 40];
+        // the two prior packets are 2+5+1+20 = 28+ and 2+5+1+41 bytes long
+        let total_prior = 28 + 49;
+        rep.note(&format!("second connection: the same Context first serves a connection that ends (end-of-stream) after each of the first {total_prior} bytes of two small packets - delivered in one read or byte by byte - then is connected again on a fresh transport: the new connection's bytes are framed as on a fresh client (CONNACK accepted, same items / acknowledgements / completions as the reference)"));
+        for cut in 0..=total_prior {
+            for one_read in [true, false] {
+                let id = format!("prev:{cut}:{}", one_read as u8);
+                idx += 1;
+                if !rep.take(idx, &id) {
+                    continue;
+                }
+                let plan = if cut % 2 == 0 { Plan::Caps(vec![]) } else { Plan::FixedTrickle(3) };
+                case_after_previous_connection(rep, &id, &seq, &plan, &r, &prior, cut, one_read);
             }
         }
     }
